@@ -2670,4 +2670,812 @@ theorem reaches_done_readwait' (c : Cfg) (hn : 0 < c.n) (rw : Bool) (s : RState)
   · obtain ⟨a, hne, hen⟩ := deadlock_free_readwait' c hn rw s hr hnd
     rw [hstuck a hne] at hen; simp at hen
 
+/-! ## Phase 5: the fault extension — an invariant WITHOUT conservation of errors, deadlock-freedom and "nothing twice" with crashes -/
+
+structure BInv (s : State) : Prop where
+  np    : s.nprocs = sumOver alive s.ws
+  lph1  : s.lphase = true → (∀ x ∈ s.todo, x = none) ∧ (∀ x, s.infl = some x → x = none)
+  pills : s.active = true → s.lphase = true → sumOver needy s.ws ≤ sumOver isPill (s.inq ++ s.infl.toList ++ s.todo)
+  q     : s.active = true → s.nprocs = 0 → none ∈ s.outq
+
+theorem binv_init (c : Cfg) (hn : 0 < c.n) : BInv (init c) := by
+  refine ⟨?_, ?_, ?_, ?_⟩
+  · simp [init, sumOver_replicate, alive]
+  · intro h; simp [init] at h
+  · intro _ h; simp [init] at h
+  · intro _ h; simp [init] at h; omega
+
+theorem binv_loadTake (c : Cfg) (s : State) (hI : BInv s) (h : enabled c s .loadTake = true) : BInv (step c s .loadTake) := by
+  simp only [enabled, Bool.and_eq_true] at h
+  obtain ⟨⟨hinfl, _⟩, htodo⟩ := h
+  cases ht : s.todo with
+  | nil => simp [ht] at htodo
+  | cons x rest =>
+    have hi : s.infl = none := by simpa using hinfl
+    simp only [step, ht]
+    cases hp : perrOf x with
+    | none =>
+      simp only []
+      refine ⟨hI.np, ?_, ?_, hI.q⟩
+      · intro hl; have := hI.lph1 hl; rw [ht] at this
+        exact ⟨fun y hy => this.1 y (by simp [hy]), fun y hy => by simp at hy; subst hy; exact this.1 _ (by simp)⟩
+      · intro ha hl; have := hI.pills ha hl; rw [ht, hi] at this; simp at this ⊢; omega
+    | some e =>
+      simp only []
+      refine ⟨hI.np, ?_, ?_, hI.q⟩
+      · intro hl; have := (hI.lph1 hl).1 x (by simp [ht]); subst this; simp [perrOf] at hp
+      · intro ha hl; have := (hI.lph1 hl).1 x (by simp [ht]); subst this; simp [perrOf] at hp
+
+theorem binv_loadPut (c : Cfg) (s : State) (hI : BInv s) (h : enabled c s .loadPut = true) : BInv (step c s .loadPut) := by
+  simp only [enabled, Bool.and_eq_true] at h
+  cases hi : s.infl with
+  | none => simp [hi] at h
+  | some x =>
+    simp only [step, hi]
+    refine ⟨hI.np, ?_, ?_, hI.q⟩
+    · intro hl; exact ⟨(hI.lph1 hl).1, by simp⟩
+    · intro ha hl; have := hI.pills ha hl; rw [hi] at this; simp at this ⊢; omega
+
+theorem binv_loadFinish (c : Cfg) (s : State) (hI : BInv s) (h : enabled c s .loadFinish = true) : BInv (step c s .loadFinish) := by
+  simp only [enabled, Bool.and_eq_true] at h
+  have hi : s.infl = none := by simpa using h.1.2
+  simp only [step]
+  refine ⟨hI.np, ?_, ?_, hI.q⟩
+  · intro _; exact ⟨fun x hx => by simp at hx; exact hx.2, by simp [hi]⟩
+  · intro _ _
+    have h1 := sumOver_mono needy alive s.ws alive_le_needy
+    have h2 := hI.np
+    simp [hi, sumOver_replicate, isPill]; omega
+
+theorem binv_same (s s' : State) (hI : BInv s) (h1 : s'.nprocs = s.nprocs) (h2 : s'.ws = s.ws) (h3 : s'.lphase = s.lphase)
+    (h4 : s'.todo = s.todo) (h5 : s'.infl = s.infl) (h6 : s'.inq = s.inq) (h7 : s'.active = true → s.active = true)
+    (h8 : s'.active = true → none ∈ s.outq → none ∈ s'.outq) : BInv s' := by
+  refine ⟨by rw [h1, h2]; exact hI.np, by rw [h3, h4, h5]; exact hI.lph1, ?_, ?_⟩
+  · intro ha hl; rw [h2, h4, h5, h6]; exact hI.pills (h7 ha) (h3 ▸ hl)
+  · intro ha hn; exact h8 ha (hI.q (h7 ha) (h1 ▸ hn))
+
+theorem binv_mEvent (c : Cfg) (s : State) (hI : BInv s) (h : enabled c s .mEvent = true) : BInv (step c s .mEvent) := by
+  simp only [enabled, Bool.and_eq_true] at h
+  have hm : s.main = .waitEvent := by simpa using h.1
+  exact binv_same s _ hI rfl rfl rfl rfl rfl rfl (fun _ => by simp [State.active, hm]) (fun _ h => h)
+
+theorem binv_inactive (s s' : State) (hI : BInv s) (h1 : s'.nprocs = s.nprocs) (h2 : s'.ws = s.ws) (h3 : s'.lphase = s.lphase)
+    (h4 : s'.todo = s.todo) (h5 : s'.infl = s.infl) (h7 : s'.active = false) : BInv s' := by
+  refine ⟨by rw [h1, h2]; exact hI.np, by rw [h3, h4, h5]; exact hI.lph1, ?_, ?_⟩
+  · intro ha; rw [h7] at ha; simp at ha
+  · intro ha; rw [h7] at ha; simp at ha
+
+theorem binv_cAbandon (c : Cfg) (s : State) (hI : BInv s) : BInv (step c s .cAbandon) :=
+  binv_inactive s _ hI rfl rfl rfl rfl rfl (by simp [step, State.active])
+
+theorem binv_mDone (c : Cfg) (s : State) (hI : BInv s) : BInv (step c s .mDone) :=
+  binv_inactive s _ hI rfl rfl rfl rfl rfl (by simp [step, State.active])
+
+theorem binv_drainIn (c : Cfg) (s : State) (hI : BInv s) (h : enabled c s .drainIn = true) : BInv (step c s .drainIn) := by
+  simp only [enabled, Bool.and_eq_true] at h
+  have hm : s.main = .fin := by simpa using h.1
+  simp only [step]
+  split <;> exact binv_inactive s _ hI rfl rfl rfl rfl rfl (by simp [State.active, hm])
+
+theorem binv_drainOut (c : Cfg) (s : State) (hI : BInv s) (h : enabled c s .drainOut = true) : BInv (step c s .drainOut) := by
+  simp only [enabled, Bool.and_eq_true] at h
+  have hm : s.main = .fin := by simpa using h.1
+  simp only [step]
+  split <;> exact binv_inactive s _ hI rfl rfl rfl rfl rfl (by simp [State.active, hm])
+
+theorem binv_cGet (c : Cfg) (s : State) (hI : BInv s) (h : enabled c s .cGet = true) : BInv (step c s .cGet) := by
+  simp only [step]
+  split
+  · rename_i o rest hq
+    exact binv_same s _ hI rfl rfl rfl rfl rfl rfl (fun h => h) (fun _ h => by rw [hq] at h; simpa using h)
+  · exact binv_inactive s _ hI rfl rfl rfl rfl rfl (by simp [State.active])
+  · exact hI
+
+/-- a step that rewrites one lineage and (possibly) appends to the out-queue -/
+theorem binv_ws (s s' : State) (w : Nat) (old x : W) (hI : BInv s) (hw : s.ws[w]? = some old)
+    (h2 : s'.ws = s.ws.set w x) (h3 : s'.lphase = s.lphase)
+    (h4 : s'.todo = s.todo) (h5 : s'.infl = s.infl) (h7 : s'.main = s.main)
+    (hal : s'.nprocs + alive old = s.nprocs + alive x)
+    (hpl : s'.active = true → s'.lphase = true →
+      sumOver isPill s.inq + needy x ≤ sumOver isPill s'.inq + needy old)
+    (h8 : none ∈ s.outq → none ∈ s'.outq) (h9 : s'.nprocs = 0 → alive old = 1 → alive x = 0 → none ∈ s'.outq) : BInv s' := by
+  have ha := wsums hw x alive
+  have hn := wsums hw x needy
+  have hact : s'.active = s.active := by simp [State.active, h7]
+  refine ⟨?_, by rw [h3, h4, h5]; exact hI.lph1, ?_, ?_⟩
+  · rw [h2]; have := hI.np; omega
+  · intro hA hl
+    have := hI.pills (hact ▸ hA) (h3 ▸ hl)
+    have := hpl hA hl
+    rw [h2, h4, h5]; simp at *; omega
+  · intro hA h0
+    have hnp := hI.np
+    by_cases hs0 : s.nprocs = 0
+    · exact h8 (hI.q (hact ▸ hA) hs0)
+    · apply h9 h0 <;> cases old <;> cases x <;> simp [alive] at * <;> omega
+
+
+
+theorem binv_wBegin (c : Cfg) (s : State) (w : Nat) (hI : BInv s) (h : enabled c s (.wBegin w) = true) : BInv (step c s (.wBegin w)) := by
+  obtain ⟨hw, _⟩ := en_wBegin h
+  exact binv_ws s _ w .spawned (.run 0 [] none) hI hw rfl rfl rfl rfl rfl (by simp [step, alive]) (by intro _ _; simp [step, needy])
+    (fun h => h) (by simp [alive])
+
+theorem binv_wPut (c : Cfg) (s : State) (w : Nat) (hI : BInv s) (h : enabled c s (.wPut w) = true) : BInv (step c s (.wPut w)) := by
+  obtain ⟨k, o, pend, e, hw⟩ := en_wPut h
+  simp only [step, hw]
+  exact binv_ws s _ w _ (.run k pend e) hI hw rfl rfl rfl rfl rfl (by simp [alive]) (by intro _ _; simp [needy])
+    (fun h => by simp [h]) (by simp [alive])
+
+theorem binv_wRaise (c : Cfg) (s : State) (w : Nat) (hI : BInv s) (h : enabled c s (.wRaise w) = true) : BInv (step c s (.wRaise w)) := by
+  obtain ⟨k, e, hw⟩ := en_wRaise h
+  simp only [step, hw]
+  exact binv_ws s _ w _ (.exited false (some e)) hI hw rfl rfl rfl rfl rfl (by simp [alive]) (by intro _ _; simp [needy])
+    (fun h => h) (by simp [alive])
+
+theorem binv_wRetire (c : Cfg) (s : State) (w : Nat) (hI : BInv s) (h : enabled c s (.wRetire w) = true) : BInv (step c s (.wRetire w)) := by
+  obtain ⟨k, hw, _⟩ := en_wRetire h
+  exact binv_ws s _ w _ (.exited false none) hI hw rfl rfl rfl rfl rfl (by simp [step, alive]) (by intro _ _; simp [step, needy])
+    (fun h => h) (by simp [alive])
+
+theorem binv_wGet (c : Cfg) (s : State) (w : Nat) (hI : BInv s) (h : enabled c s (.wGet w) = true) : BInv (step c s (.wGet w)) := by
+  obtain ⟨k, x, rest, hw, _, hq⟩ := en_wGet h
+  cases x with
+  | some x =>
+    simp only [step, hw, hq]
+    exact binv_ws s _ w _ (.run (k+1) x.outs x.err) hI hw rfl rfl rfl rfl rfl (by simp [alive])
+      (by intro _ _; simp [needy, hq, isPill]) (fun h => h) (by simp [alive])
+  | none =>
+    simp only [step, hw, hq]
+    exact binv_ws s _ w _ (.exited true none) hI hw rfl rfl rfl rfl rfl (by simp [alive])
+      (by intro _ _; simp [needy, hq, isPill]; omega) (fun h => h) (by simp [alive])
+
+theorem binv_wCallback (c : Cfg) (s : State) (w : Nat) (hI : BInv s) (h : enabled c s (.wCallback w) = true) : BInv (step c s (.wCallback w)) := by
+  obtain ⟨p, e, hw⟩ := en_wCallback h
+  have hpos : 0 < s.nprocs := by
+    rw [hI.np]
+    have := sumOver_le_of_mem alive s.ws _ (mem_of_getElem? hw)
+    simp [alive] at this; omega
+  simp only [step, hw]
+  split
+  · rename_i hc
+    simp only [Bool.and_eq_true, Bool.not_eq_true'] at hc
+    have hp := hc.1; subst hp
+    exact binv_ws s _ w _ .spawned hI hw rfl rfl rfl rfl rfl (by simp [alive]) (by intro _ _; simp [needy])
+      (fun h => h) (by simp [alive])
+  · refine binv_ws s _ w _ .dead hI hw rfl rfl rfl rfl rfl (by simp [alive]; omega) (by intro _ _; simp [needy])
+      (fun h => ?_) (fun h0 _ _ => ?_)
+    · simp only []; split <;> simp [h]
+    · simp only [] at h0 ⊢; simp [h0]
+
+theorem binv_step (c : Cfg) (s : State) (a : Action) (hI : BInv s) (h : enabled c s a = true) : BInv (step c s a) := by
+  cases a with
+  | loadTake => exact binv_loadTake c s hI h
+  | loadPut => exact binv_loadPut c s hI h
+  | loadFinish => exact binv_loadFinish c s hI h
+  | wBegin w => exact binv_wBegin c s w hI h
+  | wGet w => exact binv_wGet c s w hI h
+  | wPut w => exact binv_wPut c s w hI h
+  | wRaise w => exact binv_wRaise c s w hI h
+  | wRetire w => exact binv_wRetire c s w hI h
+  | wCallback w => exact binv_wCallback c s w hI h
+  | mEvent => exact binv_mEvent c s hI h
+  | cGet => exact binv_cGet c s hI h
+  | cAbandon => exact binv_cAbandon c s hI
+  | drainIn => exact binv_drainIn c s hI h
+  | drainOut => exact binv_drainOut c s hI h
+  | mDone => exact binv_mDone c s hI
+
+
+
+/-- every enabled base step conserves the number of copies of an output (no invariant needed) -/
+theorem outTotal_step (c : Cfg) (s : State) (a : Action) (o : Nat) (h : enabled c s a = true) :
+    outTotal o (step c s a) = outTotal o s := by
+  cases a with
+  | loadTake =>
+    simp only [enabled, Bool.and_eq_true] at h
+    have hi : s.infl = none := by simpa using h.1.1
+    simp only [step]
+    split
+    · rename_i x rest ht
+      split <;> simp [outTotal, inSide, ht, hi] <;> omega
+    · rfl
+  | loadPut =>
+    simp only [step]
+    split
+    · rename_i x hi; simp [outTotal, inSide, hi]
+    · rfl
+  | loadFinish =>
+    simp only [enabled, Bool.and_eq_true] at h
+    have hi : s.infl = none := by simpa using h.1.2
+    have : sumOver (fun x => (elemOuts x).count o) (List.replicate s.nprocs (none : Option ItemSpec)) = 0 := by
+      simp [sumOver_replicate, elemOuts]
+    simp [step, outTotal, inSide, hi, this]; omega
+  | wBegin w =>
+    obtain ⟨hw, _⟩ := en_wBegin h
+    have := wsums hw (.run 0 [] none) (fun w => (wOuts w).count o)
+    simp [step, outTotal, inSide, wOuts] at this ⊢; omega
+  | wGet w =>
+    obtain ⟨k, x, rest, hw, _, hq⟩ := en_wGet h
+    cases x with
+    | some x =>
+      have := wsums hw (.run (k+1) x.outs x.err) (fun w => (wOuts w).count o)
+      simp [step, hw, hq, outTotal, inSide, wOuts, elemOuts] at this ⊢; omega
+    | none =>
+      have := wsums hw (.exited true none) (fun w => (wOuts w).count o)
+      simp [step, hw, hq, outTotal, inSide, wOuts, elemOuts] at this ⊢; omega
+  | wPut w =>
+    obtain ⟨k, o', pend, e, hw⟩ := en_wPut h
+    have := wsums hw (.run k pend e) (fun w => (wOuts w).count o)
+    simp [step, hw, outTotal, inSide, wOuts, oCount, List.count_cons] at this ⊢
+    split at this <;> rename_i ho <;> simp [ho, eq_comm] at this ⊢ <;> omega
+  | wRaise w =>
+    obtain ⟨k, e, hw⟩ := en_wRaise h
+    have := wsums hw (.exited false (some e)) (fun w => (wOuts w).count o)
+    simp [step, hw, outTotal, inSide, wOuts] at this ⊢; omega
+  | wRetire w =>
+    obtain ⟨k, hw, _⟩ := en_wRetire h
+    have := wsums hw (.exited false none) (fun w => (wOuts w).count o)
+    simp [step, outTotal, inSide, wOuts] at this ⊢; omega
+  | wCallback w =>
+    obtain ⟨p, e, hw⟩ := en_wCallback h
+    have h1 := wsums hw .spawned (fun w => (wOuts w).count o)
+    have h2 := wsums hw .dead (fun w => (wOuts w).count o)
+    simp only [step, hw]
+    split
+    · simp [outTotal, inSide, wOuts] at h1 ⊢; omega
+    · split <;> simp [outTotal, inSide, wOuts, oCount] at h2 ⊢ <;> omega
+  | mEvent => rfl
+  | cGet =>
+    simp only [step]
+    split
+    · rename_i o' rest hq
+      simp [outTotal, inSide, hq, oCount, List.count_cons]
+      split <;> rename_i ho <;> simp [ho, eq_comm] <;> omega
+    · rename_i rest hq; simp [outTotal, inSide, hq, oCount]
+    · rfl
+  | cAbandon => rfl
+  | drainIn =>
+    simp only [step]
+    split
+    · rename_i x rest hq; simp [outTotal, inSide, hq]; omega
+    · rfl
+  | drainOut =>
+    simp only [step]
+    split
+    · rename_i x rest hq; simp [outTotal, inSide, hq, oCount]; omega
+    · rfl
+  | mDone => rfl
+
+
+
+theorem frame_event (c : Cfg) (s : State) (b : Action) (h : (step c s b).event = false) : s.event = false := by
+  cases b <;> simp only [step] at h <;> (repeat' split at h) <;> simp_all
+
+theorem enF_base {c : Cfg} {s : FState} {a : Action} (h : enabledF c s (.base a) = true) : enabled c s.b a = true := by
+  cases a <;> simp only [enabledF, Bool.and_eq_true] at h <;> first | exact h | exact h.1
+
+/-- the invariant of the fault extension: what deadlock-freedom and "nothing twice" need, WITHOUT conservation of errors -/
+structure FInv (c : Cfg) (s : FState) : Prop where
+  b     : BInv s.b
+  evF   : s.b.main = .waitEvent → s.b.event = false →
+            s.b.ws[0]? = some W.spawned ∨ (0 ∈ s.crashed ∧ ∃ p e, s.b.ws[0]? = some (W.exited p e))
+  skip  : s.skipped = true → s.b.active = false
+  outF  : ∀ o, outTotal o s.b + s.lostOuts.count o = sumOver (fun x => x.outs.count o) c.items
+
+theorem finv_init (c : Cfg) (hn : 0 < c.n) (f : Nat) : FInv c (initF c f) := by
+  refine ⟨binv_init c hn, ?_, by simp [initF], ?_⟩
+  · intro _ _; left
+    simp only [initF, init]
+    cases hc : c.n with
+    | zero => omega
+    | succ k => simp [List.replicate_succ]
+  · intro o
+    simp [initF, outTotal, init, inSide, oCount, sumOver_replicate, wOuts, sumOver_map, elemOuts]
+
+/-- a base step that is not lineage 0's own keeps lineage 0 where it is while the caller still waits for the event -/
+theorem evF_frame (c : Cfg) (s : State) (a : Action) (crashed : List Nat) (he : enabled c s a = true)
+    (hI : s.main = .waitEvent → s.event = false →
+            s.ws[0]? = some W.spawned ∨ (0 ∈ crashed ∧ ∃ p e, s.ws[0]? = some (W.exited p e)))
+    (hcb : a ≠ .wCallback 0)
+    (hm : (step c s a).main = .waitEvent) (hev : (step c s a).event = false) :
+    (step c s a).ws[0]? = some W.spawned ∨ (0 ∈ crashed ∧ ∃ p e, (step c s a).ws[0]? = some (W.exited p e)) := by
+  have hm0 : s.main = .waitEvent := by
+    apply Classical.byContradiction; intro hne; exact frame_main c s a hne hm
+  have he0 := frame_event c s a hev
+  have h0 := hI hm0 he0
+  by_cases hl : lin a = some 0
+  · exfalso
+    cases a <;> simp [lin] at hl <;> subst hl
+    · simp [step] at hev
+    · obtain ⟨k, x, rest, hw, _, _⟩ := en_wGet he
+      rw [hw] at h0; simp at h0
+    · obtain ⟨k, o, pend, e, hw⟩ := en_wPut he
+      rw [hw] at h0; simp at h0
+    · obtain ⟨k, e, hw⟩ := en_wRaise he
+      rw [hw] at h0; simp at h0
+    · obtain ⟨k, hw, _⟩ := en_wRetire he
+      rw [hw] at h0; simp at h0
+    · exact hcb rfl
+  · rw [frame_ws c s 0 a hl]; exact h0
+
+theorem outTotal_event (o : Nat) (s : State) (ev : Bool) : outTotal o { s with event := ev } = outTotal o s := rfl
+theorem outTotal_main (o : Nat) (s : State) (m : Phase) : outTotal o { s with main := m } = outTotal o s := rfl
+
+theorem finv_step (c : Cfg) (s : FState) (a : ActionF) (hI : FInv c s) (he : enabledF c s a = true) : FInv c (stepF c s a) := by
+  cases a with
+  | wCrash w =>
+    simp only [enabledF, Bool.and_eq_true, decide_eq_true_eq] at he
+    obtain ⟨_, hw⟩ := he
+    have key : ∀ (old : W) (lost : List Nat) (s' : FState), s.b.ws[w]? = some old → old ≠ .dead → needy (.exited true none) ≤ needy old →
+        (∀ o, (wOuts old).count o = lost.count o) →
+        s'.b = { s.b with ws := s.b.ws.set w (.exited true none) } → s'.crashed = w :: s.crashed → s'.skipped = s.skipped →
+        (∀ o, s'.lostOuts.count o = s.lostOuts.count o + lost.count o) → (old = .spawned ∨ ∃ k p e, old = .run k p e) → FInv c s' := by
+      intro old lost s' hold hnd hneedy hlost hb hcr hsk hlo hshape
+      have hbinv : BInv s'.b := by
+        rw [hb]
+        refine binv_ws s.b _ w old (.exited true none) hI.b hold rfl rfl rfl rfl rfl ?_ ?_ (fun h => h) ?_
+        · cases old <;> simp [alive] at hnd ⊢
+        · intro _ _; simp only []; omega
+        · intro _ _ h; simp [alive] at h
+      refine ⟨hbinv, ?_, ?_, ?_⟩
+      · rw [hb, hcr]; simp only []
+        intro hm hev
+        have h0 := hI.evF hm hev
+        by_cases hw0 : w = 0
+        · subst hw0; right
+          refine ⟨by simp, true, none, ?_⟩
+          rw [get_set hold]; simp
+        · have hne : ¬ (0 = w) := fun h => hw0 h.symm
+          rw [get_set hold, if_neg hne]
+          rcases h0 with h0 | ⟨h1, h2⟩
+          · left; exact h0
+          · right; exact ⟨List.mem_cons_of_mem _ h1, h2⟩
+      · rw [hsk, hb]; exact hI.skip
+      · intro o
+        have := hI.outF o
+        have h2 := wsums hold (.exited true none) (fun w => (wOuts w).count o)
+        rw [hb, hlo o, ← hlost o]
+        simp only [outTotal, inSide] at this ⊢
+        simp [wOuts] at h2 this ⊢; omega
+    cases hws : s.b.ws[w]? with
+    | none => simp [hws] at hw
+    | some x =>
+      cases x with
+      | dead => simp [hws] at hw
+      | exited p e => simp [hws] at hw
+      | spawned =>
+        refine key .spawned [] _ hws (by simp) (by simp [needy]) (by simp [wOuts]) ?_ ?_ ?_ ?_ (Or.inl rfl)
+        all_goals simp [stepF, hws]
+      | run k pend e =>
+        refine key (.run k pend e) pend _ hws (by simp) (by simp [needy]) (by simp [wOuts]) ?_ ?_ ?_ ?_ (Or.inr ⟨k, pend, e, rfl⟩)
+        all_goals simp [stepF, hws]
+  | base a =>
+    have hen := enF_base he
+    have hb := binv_step c s.b a hI.b hen
+    have hout : ∀ o, outTotal o (step c s.b a) + s.lostOuts.count o = sumOver (fun x => x.outs.count o) c.items := by
+      intro o; rw [outTotal_step c s.b a o hen]; exact hI.outF o
+    have hskip : ∀ a, enabled c s.b a = true → s.skipped = true → (step c s.b a).active = false := by
+      intro a ha hs
+      have h1 := hI.skip hs
+      cases h2 : (step c s.b a).active with
+      | false => rfl
+      | true => rw [active_step c s.b a ha h2] at h1; simp at h1
+    have generic : (∀ w, a ≠ .wCallback w) → a ≠ .mEvent → stepF c s (.base a) = { s with b := step c s.b a } →
+        FInv c (stepF c s (.base a)) := by
+      intro h1 _ hst
+      rw [hst]
+      exact ⟨hb, fun hm hev => evF_frame c s.b a s.crashed hen hI.evF (h1 0) hm hev, hskip a hen, hout⟩
+    cases a with
+    | wCallback w =>
+      obtain ⟨p, e, hw⟩ := en_wCallback hen
+      simp only [stepF]
+      split
+      · rename_i hc
+        refine ⟨?_, ?_, ?_, ?_⟩
+        · exact binv_same _ _ hb rfl rfl rfl rfl rfl rfl (fun h => h) (fun _ h => h)
+        · intro _ hev; simp at hev
+        · exact hskip _ hen
+        · exact hout
+      · rename_i hc
+        refine ⟨hb, ?_, hskip _ hen, hout⟩
+        intro hm hev
+        by_cases hw0 : w = 0
+        · subst hw0
+          have hm0 : s.b.main = .waitEvent := by
+            apply Classical.byContradiction; intro hne; exact frame_main c s.b _ hne hm
+          rcases hI.evF hm0 (frame_event c s.b _ hev) with h0 | ⟨h1, _⟩
+          · rw [hw] at h0; simp at h0
+          · exact absurd (by simpa using h1) hc
+        · exact evF_frame c s.b _ s.crashed hen hI.evF (by simp [hw0]) hm hev
+    | mEvent =>
+      simp only [stepF]
+      split
+      · refine ⟨?_, ?_, ?_, ?_⟩
+        · exact binv_inactive s.b _ hI.b rfl rfl rfl rfl rfl (by simp [State.active])
+        · intro hm; simp at hm
+        · intro _; simp [State.active]
+        · exact hI.outF
+      · exact ⟨hb, fun hm => by simp [step] at hm, hskip _ hen, hout⟩
+    | loadTake => exact generic (by simp) (by simp) rfl
+    | loadPut => exact generic (by simp) (by simp) rfl
+    | loadFinish => exact generic (by simp) (by simp) rfl
+    | wBegin w => exact generic (by simp) (by simp) rfl
+    | wGet w => exact generic (by simp) (by simp) rfl
+    | wPut w => exact generic (by simp) (by simp) rfl
+    | wRaise w => exact generic (by simp) (by simp) rfl
+    | wRetire w => exact generic (by simp) (by simp) rfl
+    | cGet => exact generic (by simp) (by simp) rfl
+    | cAbandon => exact generic (by simp) (by simp) rfl
+    | drainIn => exact generic (by simp) (by simp) rfl
+    | drainOut => exact generic (by simp) (by simp) rfl
+    | mDone => exact generic (by simp) (by simp) rfl
+
+theorem finv_reachable (c : Cfg) (hn : 0 < c.n) (f : Nat) (s : FState) (hr : ReachableF c f s) : FInv c s := by
+  induction hr with
+  | init => exact finv_init c hn f
+  | step _ he ih => exact finv_step c _ _ ih he
+
+
+
+theorem enF_lift (c : Cfg) (s : FState) (a : Action) (h : enabled c s.b a = true) (hm : s.b.main ≠ .waitEvent)
+    (hs : s.skipped = false) : enabledF c s (.base a) = true := by
+  cases a <;> simp_all [enabledF, startedF]
+
+theorem exists_alive_b {s : State} (hI : BInv s) (h : s.nprocs ≠ 0) :
+    ∃ (w : Nat) (x : W), s.ws[w]? = some x ∧ x ≠ W.dead := by
+  have hnp := hI.np
+  by_cases hall : ∀ x ∈ s.ws, alive x = 0
+  · have := (sumOver_eq_zero alive s.ws).2 hall
+    omega
+  · have hall' : ∃ x, x ∈ s.ws ∧ alive x ≠ 0 := by
+      apply Classical.byContradiction
+      intro hno
+      apply hall
+      intro x hx
+      apply Classical.byContradiction
+      intro hne
+      exact hno ⟨x, hx, hne⟩
+    obtain ⟨x, hx, hxa⟩ := hall'
+    obtain ⟨w, hw⟩ := List.mem_iff_getElem?.1 hx
+    refine ⟨w, x, hw, ?_⟩
+    intro hd; subst hd; simp [alive] at hxa
+
+/-- with any number of worker crashes: as long as the call has not returned, some step of the CODE (not a further crash, not
+the caller giving up) is possible -/
+theorem deadlock_free_faults' (c : Cfg) (hn : 0 < c.n) (f : Nat) (s : FState) (hr : ReachableF c f s) (hnd : s.b.main ≠ .done) :
+    ∃ a : Action, a ≠ .cAbandon ∧ enabledF c s (.base a) = true := by
+  have hI := finv_reachable c hn f s hr
+  cases hm : s.b.main with
+  | done => exact absurd hm hnd
+  | fin => exact ⟨.mDone, by simp, by simp [enabledF, enabled, hm]⟩
+  | waitEvent =>
+    cases he : s.b.event with
+    | true => exact ⟨.mEvent, by simp, by simp [enabledF, enabled, hm, he]⟩
+    | false =>
+      rcases hI.evF hm he with h0 | ⟨_, p, e, h0⟩
+      · exact ⟨.wBegin 0, by simp, by simp [enabledF, enabled, startedF, h0]⟩
+      · exact ⟨.wCallback 0, by simp, by simp [enabledF, enabled, h0]⟩
+  | consuming =>
+    have hact : s.b.active = true := by simp [State.active, hm]
+    have hsk : s.skipped = false := by
+      cases h : s.skipped with
+      | false => rfl
+      | true => have := hI.skip h; rw [hact] at this; simp at this
+    have hmw : s.b.main ≠ .waitEvent := by rw [hm]; simp
+    have lift : (∃ a, a ≠ Action.cAbandon ∧ enabled c s.b a = true) → ∃ a : Action, a ≠ .cAbandon ∧ enabledF c s (.base a) = true :=
+      fun ⟨a, h1, h2⟩ => ⟨a, h1, enF_lift c s a h2 hmw hsk⟩
+    apply lift
+    cases hq : s.b.outq with
+    | cons y ys => exact ⟨.cGet, by simp, by simp [enabled, hm, hq]⟩
+    | nil =>
+      have hnp : s.b.nprocs ≠ 0 := by
+        intro h0
+        have := hI.b.q hact h0
+        rw [hq] at this; simp at this
+      obtain ⟨w, x, hw, hxd⟩ := exists_alive_b hI.b hnp
+      rcases worker_progress c s.b w x hw hmw with h | h | ⟨k, hx, hinq⟩
+      · exact h
+      · exact absurd h hxd
+      · cases hi : s.b.infl with
+        | some y =>
+          refine ⟨.loadPut, by simp, ?_⟩
+          simp [enabled, hi, hinq, cap]; omega
+        | none =>
+          have hst : s.b.stopped = false := by simp [State.stopped, hm]
+          cases ht : s.b.todo with
+          | cons y ys =>
+            exact ⟨.loadTake, by simp, by simp [enabled, hi, hst, ht]⟩
+          | nil =>
+            cases hl : s.b.lphase with
+            | false => exact ⟨.loadFinish, by simp, by simp [enabled, hl, hi, ht]⟩
+            | true =>
+              have hp := hI.b.pills hact hl
+              rw [hinq, hi, ht] at hp
+              simp at hp
+              have h1 := sumOver_le_of_mem needy s.b.ws x (mem_of_getElem? hw)
+              subst hx
+              simp [needy] at h1
+              omega
+
+theorem reachableF_of_run (c : Cfg) (f : Nat) (s s' : FState) (tr : List ActionF) (hs : ReachableF c f s)
+    (h : runTraceF c s tr = some s') : ReachableF c f s' := by
+  induction tr generalizing s with
+  | nil => simp [runTraceF] at h; subst h; exact hs
+  | cons a as ih =>
+    simp only [runTraceF] at h
+    split at h
+    · rename_i he; exact ih _ (ReachableF.step hs he) h
+    · simp at h
+
+/-- a schedule with crashes that the code cannot extend has finished the call -/
+theorem reaches_done_faults' (c : Cfg) (hn : 0 < c.n) (f : Nat) (tr : List ActionF) (s : FState)
+    (h : runTraceF c (initF c f) tr = some s)
+    (hstuck : ∀ a : Action, a ≠ .cAbandon → enabledF c s (.base a) = false) : s.b.main = .done := by
+  have hr := reachableF_of_run c f _ _ tr ReachableF.init h
+  cases hm : s.b.main with
+  | done => rfl
+  | _ =>
+    all_goals
+      obtain ⟨a, ha, he⟩ := deadlock_free_faults' c hn f s hr (by rw [hm]; simp)
+      rw [hstuck a ha] at he; simp at he
+
+/-- with any number of crashes: every copy of an output is handed over, still in the system, or was held by a dead process -/
+theorem outputs_accounted_faults' (c : Cfg) (hn : 0 < c.n) (f : Nat) (s : FState) (hr : ReachableF c f s) (o : Nat) :
+    outTotal o s.b + s.lostOuts.count o = (allOuts c).count o := by
+  rw [count_allOuts]; exact (finv_reachable c hn f s hr).outF o
+
+theorem never_duplicated_faults' (c : Cfg) (hn : 0 < c.n) (f : Nat) (s : FState) (hr : ReachableF c f s) (o : Nat) :
+    s.b.recv.count o + s.lostOuts.count o ≤ (allOuts c).count o := by
+  have := outputs_accounted_faults' c hn f s hr o
+  simp only [outTotal] at this; omega
+
+
+
+theorem budget_le (c : Cfg) (f : Nat) (s : FState) (hr : ReachableF c f s) : s.budget ≤ f := by
+  induction hr with
+  | init => simp [initF]
+  | @step s' a _ he ih =>
+    cases a with
+    | wCrash w => simp only [stepF]; split <;> (try simp) <;> omega
+    | base a => cases a <;> simp only [stepF] <;> (try split) <;> exact ih
+
+/-- a run in which no crash has happened (the whole budget is still there) is a run of the base system, whatever the budget -/
+theorem no_crash_refines' (c : Cfg) (f : Nat) (s : FState) (hr : ReachableF c f s) (hb : s.budget = f) :
+    Reachable c s.b ∧ s.mainErr = false ∧ s.crashed = [] ∧ s.skipped = false := by
+  induction hr with
+  | init => exact ⟨Reachable.init, rfl, rfl, rfl⟩
+  | @step s' a hr' he ih =>
+    have hle := budget_le c f s' hr'
+    cases a with
+    | wCrash w =>
+      exfalso
+      simp only [enabledF, Bool.and_eq_true, decide_eq_true_eq] at he
+      obtain ⟨hpos, hw⟩ := he
+      simp only [stepF] at hb
+      split at hb
+      · simp at hb; omega
+      · simp at hb; omega
+      · rename_i h1 h2
+        cases hws : s'.b.ws[w]? with
+        | none => simp [hws] at hw
+        | some x => cases x <;> simp_all
+    | base a =>
+      have hb' : s'.budget = f := by
+        cases a <;> simp only [stepF] at hb <;> (try split at hb) <;> exact hb
+      obtain ⟨h1, h2, h3, h4⟩ := ih hb'
+      have hen := enF_base he
+      have hst : stepF c s' (.base a) = { s' with b := step c s'.b a } := by
+        cases a <;> simp [stepF, h2, h3]
+      rw [hst]
+      exact ⟨Reachable.step h1 hen, h2, h3, h4⟩
+
+theorem exactly_once_nocrash_partial' (c : Cfg) (hn : 0 < c.n) (f : Nat) (s : FState) (hr : ReachableF c f s) (hb : s.budget = f)
+    (hd : s.b.main = .done) (hab : s.b.abandoned = false) (hne : ∀ x ∈ c.items, x.err = none ∧ x.perr = none) :
+    ∃ outs, outcome s.b = .ok outs ∧ outs.Perm (allOuts c) :=
+  exactly_once' c hn s.b (no_crash_refines' c f s hr hb).1 hd hab hne
+
+theorem error_surfaces_nocrash_partial' (c : Cfg) (hn : 0 < c.n) (f : Nat) (s : FState) (hr : ReachableF c f s) (hb : s.budget = f)
+    (hd : s.b.main = .done) (hab : s.b.abandoned = false) (x : ItemSpec) (hx : x ∈ c.items) (hxe : x.err ≠ none ∨ x.perr ≠ none) :
+    ∃ e outs, outcome s.b = .raised e outs ∧ e ∈ allErrs c :=
+  error_surfaces' c hn s.b (no_crash_refines' c f s hr hb).1 hd hab x hx hxe
+
+
+
+theorem ws_len_step (c : Cfg) (s : State) (a : Action) : (step c s a).ws.length = s.ws.length := by
+  cases a <;> simp only [step] <;> (repeat' split) <;> simp
+
+theorem ws_len_stepF (c : Cfg) (s : FState) (a : ActionF) : (stepF c s a).b.ws.length = s.b.ws.length := by
+  cases a with
+  | wCrash w => simp only [stepF]; split <;> simp
+  | base a =>
+    have := ws_len_step c s.b a
+    cases a <;> simp only [stepF] <;> (try split) <;> exact this
+
+theorem ws_len_reachableF (c : Cfg) (f : Nat) (s : FState) (hr : ReachableF c f s) : s.b.ws.length = c.n := by
+  induction hr with
+  | init => simp [initF, init]
+  | step _ _ ih => rw [ws_len_stepF]; exact ih
+
+theorem lt_of_get {l : List W} {w : Nat} {x : W} (h : l[w]? = some x) : w < l.length := by
+  rcases Nat.lt_or_ge w l.length with h' | h'
+  · exact h'
+  · rw [List.getElem?_eq_none h'] at h; simp at h
+
+theorem mem_codeActions (c : Cfg) (s : State) (a : Action) (hlen : s.ws.length = c.n) (ha : a ≠ .cAbandon)
+    (he : enabled c s a = true) : a ∈ codeActions c := by
+  have hw : ∀ w, lin a = some w → w < c.n := by
+    intro w hl
+    rw [← hlen]
+    cases a <;> simp [lin] at hl <;> subst hl
+    · exact lt_of_get (en_wBegin he).1
+    · obtain ⟨k, x, rest, hw, _, _⟩ := en_wGet he; exact lt_of_get hw
+    · obtain ⟨k, o, pend, e, hw⟩ := en_wPut he; exact lt_of_get hw
+    · obtain ⟨k, e, hw⟩ := en_wRaise he; exact lt_of_get hw
+    · obtain ⟨k, hw, _⟩ := en_wRetire he; exact lt_of_get hw
+    · obtain ⟨p, e, hw⟩ := en_wCallback he; exact lt_of_get hw
+  cases a <;> first
+    | exact absurd rfl ha
+    | (simp [codeActions]; done)
+    | (have := hw _ rfl; simp [codeActions, List.mem_flatMap, List.mem_range]; omega)
+
+/-- the executable form the driver evaluates: a reachable state (crashes included) in which no step of the code is possible
+has finished the call -/
+theorem stuck_done_faults' (c : Cfg) (hn : 0 < c.n) (f : Nat) (s : FState) (hr : ReachableF c f s)
+    (hst : stuckF c s = true) : s.b.main = .done := by
+  cases hm : s.b.main with
+  | done => rfl
+  | _ =>
+    all_goals
+      exfalso
+      obtain ⟨a, ha, he⟩ := deadlock_free_faults' c hn f s hr (by rw [hm]; simp)
+      have hmem := mem_codeActions c s.b a (ws_len_reachableF c f s hr) ha (enF_base he)
+      simp only [stuckF, List.all_eq_true] at hst
+      have := hst a hmem
+      rw [he] at this; simp at this
+
+
+def strandCfg : Cfg := { n := 1, m := 2, items := [{ id := 0, outs := [1], err := none }, { id := 1, outs := [2], err := none }] }
+def strandTrace : List ActionF :=
+  [.base (.wBegin 0), .base .mEvent, .base .loadTake, .base .loadPut, .base .loadTake, .base .loadPut, .base (.wGet 0), .wCrash 0,
+   .base (.wCallback 0), .base .cGet, .base .drainIn, .base .mDone, .base .loadFinish]
+
+theorem crash_strands_items' :
+    (runTraceF strandCfg (initF strandCfg 1) strandTrace).map
+        (fun s => (s.b.main, outcome s.b, s.lostOuts, s.b.dropIn.length, stuckF strandCfg s))
+      = some (Phase.done, Outcome.ok [], [1], 1, true) ∧ allOuts strandCfg = [1, 2] := by decide
+
+/-! ## Phase 5: crash × read_wait -/
+
+theorem enRF_r {c : Cfg} {s : RFState} {a : ActionR} (h : enabledRF c s (.r a) = true) : enabledR c s.r a = true := by
+  cases a with
+  | base b => cases b <;> simp only [enabledRF, Bool.and_eq_true] at h <;> first | exact h | exact h.1
+  | _ => exact h
+
+theorem filter_ne_length_lt (l : List Nat) (w : Nat) (h : w ∈ l) : (l.filter (· != w)).length < l.length := by
+  induction l with
+  | nil => simp at h
+  | cons x xs ih =>
+    by_cases hx : x = w
+    · subst hx
+      have := List.length_filter_le (fun y => y != x) xs
+      simp; omega
+    · have hm : w ∈ xs := by simpa [Ne.symm hx] using h
+      have := ih hm
+      simp [hx]; omega
+
+theorem muRF_decreases' (c : Cfg) (rw : Bool) (s : RFState) (a : ActionRF) (h : enabledRF c s a = true) :
+    muR c (stepRF c rw s a).r < muR c s.r := by
+  cases a with
+  | r a =>
+    have hb := muR_decreases' c rw s.r a (enRF_r h)
+    have key : muR c (stepRF c rw s (.r a)).r ≤ muR c (stepR c rw s.r a) := by
+      cases a with
+      | base b =>
+        cases b with
+        | wCallback w =>
+          simp only [stepRF]; split
+          · simp [muR, mu_def]
+          · exact Nat.le_refl _
+        | mEvent =>
+          have hen := enR_base (enRF_r h)
+          simp only [enabled, Bool.and_eq_true] at hen
+          have hm : s.r.b.main = .waitEvent := by simpa using hen.1
+          simp only [stepRF]; split
+          · simp [muR, stepR, syncOut, mu_def, step, phasePot, lineEnds]
+            cases rw <;> omega
+          · exact Nat.le_refl _
+        | _ => exact Nat.le_refl _
+      | _ => exact Nat.le_refl _
+    omega
+  | wCrashKey w =>
+    simp only [enabledRF, Bool.and_eq_true, decide_eq_true_eq] at h
+    obtain ⟨⟨_, hk⟩, hw⟩ := h
+    have hmem : w ∈ s.r.keyWait := by simpa using hk
+    have hlt := filter_ne_length_lt s.r.keyWait w hmem
+    cases hws : s.r.b.ws[w]? with
+    | none => simp [hws] at hw
+    | some x =>
+      cases x with
+      | exited p e =>
+        have := sumOver_set (wPot c) s.r.b.ws w (.exited p e) (.exited true e) hws
+        simp only [wPot] at this
+        simp only [stepRF, hws, muR, mu_def]; omega
+      | _ => simp [hws] at hw
+
+theorem runRF_bounded' (c : Cfg) (rw : Bool) (s s' : RFState) (tr : List ActionRF) (h : runTraceRF c rw s tr = some s') :
+    tr.length + muR c s'.r ≤ muR c s.r := by
+  induction tr generalizing s with
+  | nil => simp [runTraceRF] at h; subst h; simp
+  | cons a as ih =>
+    simp only [runTraceRF] at h
+    split at h
+    · rename_i he
+      have := ih _ h
+      have := muRF_decreases' c rw s a he
+      simp; omega
+    · simp at h
+
+theorem terminates_rf' (c : Cfg) (rw : Bool) (f : Nat) (tr : List ActionRF) (s : RFState)
+    (h : runTraceRF c rw (initRF c f) tr = some s) : tr.length ≤ 6 * mu c (init c) := by
+  have := runRF_bounded' c rw _ _ tr h
+  simp [initRF, initR, muR] at this; omega
+
+theorem stepR_b (c : Cfg) (rw : Bool) (s : RState) (a : ActionR) :
+    (stepR c rw s a).b = (match a with | .base b => step c s.b b | _ => s.b) := by
+  cases a <;> simp [stepR]
+  split <;> rfl
+
+theorem outTotal_stepR (c : Cfg) (rw : Bool) (s : RState) (a : ActionR) (o : Nat) (h : enabledR c s a = true) :
+    outTotal o (stepR c rw s a).b = outTotal o s.b := by
+  rw [stepR_b]
+  cases a with
+  | base b => exact outTotal_step c s.b b o (enR_base h)
+  | _ => rfl
+
+theorem outC_rf (c : Cfg) (rw : Bool) (f : Nat) (s : RFState) (hr : ReachableRF c rw f s) (o : Nat) :
+    outTotal o s.r.b = sumOver (fun x => x.outs.count o) c.items := by
+  induction hr with
+  | init => simp [initRF, initR, outTotal, init, inSide, oCount, sumOver_replicate, wOuts, sumOver_map, elemOuts]
+  | @step s' a _ he ih =>
+    rw [← ih]
+    cases a with
+    | wCrashKey w =>
+      simp only [enabledRF, Bool.and_eq_true] at he
+      cases hws : s'.r.b.ws[w]? with
+      | none => simp [hws] at he
+      | some x =>
+        cases x with
+        | exited p e =>
+          have h2 := wsums hws (.exited true e) (fun w => (wOuts w).count o)
+          simp only [stepRF, hws, outTotal, inSide]
+          simp [wOuts] at h2 ⊢; omega
+        | _ => simp [hws] at he
+    | r a =>
+      have hen := enRF_r he
+      have hgen := outTotal_stepR c rw s'.r a o hen
+      cases a with
+      | base b =>
+        cases b with
+        | wCallback w => simp only [stepRF]; split <;> exact hgen
+        | mEvent => simp only [stepRF]; split <;> first | rfl | exact hgen
+        | _ => exact hgen
+      | _ => exact hgen
+
+theorem never_duplicated_rf' (c : Cfg) (rw : Bool) (f : Nat) (s : RFState) (hr : ReachableRF c rw f s) (o : Nat) :
+    s.r.b.recv.count o ≤ (allOuts c).count o := by
+  have := outC_rf c rw f s hr o
+  rw [count_allOuts]
+  simp only [outTotal] at this; omega
+
+
+def rfTrace : List ActionRF :=
+  rwTrace1.map .r ++ [.wCrashKey 0, .r (.base (.wCallback 0)), .r (.base .cGet), .r .cKey, .r (.base .cGet), .r (.base .mDone)]
+
+theorem crash_keywait_example' :
+    (runTraceRF rwCfg true (initRF rwCfg 1) (rfTrace.take (rwTrace1.length + 1))).map
+        (fun s => (s.mainErr, s.r.keyWait, s.crashedK, enabledRF rwCfg s (.r (.base (.wCallback 0))))) = some (false, [], [0], true)
+    ∧ (runTraceRF rwCfg true (initRF rwCfg 1) rfTrace).map (fun s => (s.mainErr, s.r.keyWait, s.r.b.nprocs, s.r.routq)) = some (true, [], 0, [])
+    ∧ (runTraceRF rwCfg true (initRF rwCfg 1) rfTrace).map (fun s => (s.r.b.main, outcome s.r.b, s.budget)) = some (Phase.done, Outcome.ok [1], 0) := by decide
+
 end Coba.C08
